@@ -63,6 +63,13 @@ TRUSTED_EXTRA = [
     "configured number of samples per point is reached)",
 ]
 
+LEVEL = "proof"
+EXPLANATION = ("PARTIAL. Proved (Lean): jacmin_eval_nums is the label snapshot of the fit (every Model operation sequence, both branches of "
+               "get_final_results); base shifts and the column un-scaling keep 'interpolant / least-squares fit' (so the returned matrix is the "
+               "fit in user coordinates), affine residuals => J = A. Not proved: LAPACK exactness, the cond-proportional error, label = true "
+               "evaluation number (C03), pass-through in solve (L2). Observed: bit-identity of soln.jacobian with a captured fit + exact "
+               "independent fit through the named recorded evaluations, tolerance 32(n+1) eps cond posfac scale (measured max < 1).")
+
 TOL_C = 64.0          # internal fit equations (as C16)
 TOL_C11 = 32.0        # returned Jacobian vs independent fit
 SUITE = 1101
@@ -297,7 +304,7 @@ def check_solution(prob, soln, calls):
 def correspondence(ctx):
     dfols = core.import_dfols()
     from dfols.model import Model
-    nrun = ctx.scale(60, 500)
+    nrun = ctx.scale(90, 500)
     captures = []
     orig = Model.interpolate_mini_models_svd
 
@@ -438,7 +445,7 @@ def correspondence(ctx):
 # ----------------------------------------------------------------------------------------------
 def search(ctx):
     dfols = core.import_dfols()
-    nrun = ctx.scale(330, 4000) * getattr(ctx, "boost", 1)
+    nrun = ctx.scale(500, 4000) * getattr(ctx, "boost", 1)
     counts, stats = {}, {}
     for i in range(nrun):
         rng = np.random.default_rng([ctx.seed, SUITE, i])
